@@ -97,6 +97,7 @@ fn run_family(plan: &Plan, lib: &dyn Lib, rec: &mut Rec) {
     let zero = vec![0u8; 32];
     let Some(sig) = rec.call(lib, g, Op::Sign, &[&a.sk, &[scheme], &msg]).first().map(|v| v.to_vec()) else { return };
     let osig = refimpl::layout::tagged(scheme, &id_sig);
+    pairing_identities(rec, lib, g, &sig[1..], &a.pk, &id_sig, &id_pk);
     let mut c = Courier::new(plan.seed, 2);
     // everything below reaches the verifier through the transport: the substitution is made by the sending peer
     let deliver = |c: &mut Courier, parts: Vec<Vec<u8>>| -> Vec<Vec<u8>> { c.ship(0, 1, K_BYZ, 0, parts).into_iter().next().map(|a| a.parts).unwrap_or_default() };
@@ -375,6 +376,24 @@ fn run_agg_positions_wide(plan: &Plan, lib: &dyn Lib, rec: &mut Rec) {
         }
     }
     rec.sample(|| format!("scheme={} g={} identity key at index {} of a list of equal pairs", scheme_name(scheme), g.name(), n));
+}
+
+/// the trait-level pairing product over lists in which every pair, or some, contain the identity: the product is the
+/// identity of the target group and splitting a list in two never changes the product (the twin back end must say the same)
+fn pairing_identities(rec: &mut Rec, lib: &dyn Lib, g: Grp, sig: &[u8], pk: &[u8], id_sig: &[u8], id_pk: &[u8]) {
+    for (what, list) in [
+        ("all-identity-pairs", vec![id_sig, id_pk, id_sig, id_pk]),
+        ("every-pair-has-an-identity-member", vec![id_sig, pk, sig, id_pk]),
+        ("real-pair-then-identity-padding", vec![sig, pk, id_sig, id_pk, id_sig, id_pk]),
+        ("identity-padding-then-real-pair", vec![id_sig, id_pk, sig, pk]),
+        ("single-identity-pair", vec![id_sig, id_pk]),
+    ] {
+        let o = rec.call(lib, g, Op::PairingRaw, &list);
+        let all_id = !what.contains("real-pair");
+        if let Some(v) = o.clone().ok() {
+            rec.expect("C04", "pairing-of-identities-is-the-identity", (v[0] == [1u8]) == all_id && v[1] == [1u8], || format!("Pairing::pairing {} g={} | product is the identity: {:?} (expected {}), split product equals whole: {:?}", what, g.name(), v[0], all_id, v[1]));
+        }
+    }
 }
 
 fn run_agg_positions(plan: &Plan, lib: &dyn Lib, rec: &mut Rec) {
